@@ -136,6 +136,45 @@ func c09GenNew(r *Rng) string {
 	return fmt.Sprintf("new %s %s nopv", XS(svc), XS(sid))
 }
 
+// c09GenHTTPOpt: every HttpServer-level option that could touch describe.
+func c09GenHTTPOpt(r *Rng) string {
+	w := []string{"httpopt"}
+	if r.Chance(70) {
+		w = append(w, "name="+XS(Pick(r, []string{"", "Display Name", "MyService", "GoRpcServer", "other|name", "ünï", "x"})))
+	}
+	if r.Chance(40) {
+		w = append(w, "prefix="+XS(Pick(r, []string{"", "/vgi", "/a/b", "/api-v1"})))
+	}
+	if r.Chance(50) {
+		w = append(w, fmt.Sprintf("comp=%d", Pick(r, []int{0, 1, 3, 9})))
+	}
+	if r.Chance(60) {
+		w = append(w, "ae="+Pick(r, []string{"none", "zstd", "gzip", "xzstd"}))
+	}
+	if r.Chance(30) {
+		w = append(w, "cors="+XS(Pick(r, []string{"*", "https://app.example", ""})), fmt.Sprintf("corsage=%d", Pick(r, []int{0, 60})))
+	}
+	if r.Chance(30) {
+		w = append(w, fmt.Sprintf("pages=%d", r.Intn(8)), "repo="+XS("https://example.com/repo"))
+	}
+	if r.Chance(30) {
+		w = append(w, "sticky=1")
+	}
+	if r.Chance(20) {
+		w = append(w, "maxreq=1048576", "maxresp=1048576")
+	}
+	if r.Chance(20) {
+		w = append(w, fmt.Sprintf("batchlimit=%d", r.Range(1, 3)), fmt.Sprintf("cache=%d", r.Range(1, 64)))
+	}
+	if r.Chance(25) {
+		w = append(w, "auth=1")
+	}
+	if r.Chance(25) {
+		w = append(w, "initpages=1")
+	}
+	return strings.Join(w, " ")
+}
+
 func c09Gen(g *Gen) {
 	r := g.Rng
 	n := g.N(500, 6000)
@@ -155,6 +194,17 @@ func c09Gen(g *Gen) {
 			if r.Chance(8) {
 				lines = append(lines, "describe "+Pick(r, []string{"pipe", "http"}))
 			}
+		}
+		if r.Chance(65) {
+			// configure the HTTP side, then both transports must answer alike
+			lines = append(lines, c09GenHTTPOpt(r))
+			if r.Chance(30) {
+				lines = append(lines, "setsid "+XS(Pick(r, []string{"", "late-id", "ü2"})))
+			}
+			if r.Chance(20) {
+				lines = append(lines, "setsvc "+XS(Pick(r, []string{"", "LateName", "Display Name"})))
+			}
+			lines = append(lines, "describe http", "describe pipe")
 		}
 		lines = append(lines, "describe "+Pick(r, []string{"pipe", "http"}))
 		tail := r.Range(1, 4)
@@ -185,7 +235,7 @@ func c09Gen(g *Gen) {
 		for _, nm := range perm[:r.Range(2, len(perm))] {
 			lines = append(lines, c09GenReg(r, nm))
 		}
-		lines = append(lines, "describe pipe", "describe http", fmt.Sprintf("perm %d", r.Intn(1000)), "hash", fmt.Sprintf("perm %d", r.Intn(1000)))
+		lines = append(lines, c09GenHTTPOpt(r), "describe pipe", "describe http", fmt.Sprintf("perm %d", r.Intn(1000)), "hash", "describe http", fmt.Sprintf("perm %d", r.Intn(1000)))
 		g.Case(lines...)
 	}
 	if g.Thorough() {
